@@ -2,6 +2,7 @@ package sqlgen
 
 import (
 	"fmt"
+	"strings"
 
 	"pgregory.net/rapid"
 )
@@ -391,7 +392,11 @@ func (g *gen) joinChain(outer *scope, before []src, maxJoins int) ([]string, []s
 		if natural {
 			words = "natural " + words
 		}
-		g.feat("join:" + words)
+		base := strings.TrimSuffix(jt, " outer")
+		if base == "" {
+			base = "plain"
+		}
+		g.feat("join:" + base)
 		if j == 0 && len(before) == 0 && g.p(6) && len(tail) > 0 {
 			// parenthesised group on the left: (a JOIN b ON ..) JOIN c ..
 			g.feat("join-paren-left")
@@ -415,7 +420,7 @@ func (g *gen) joinChainForced(outer *scope, before []src) ([]string, []src, bool
 	c := g.cond(sc, 1)
 	g.popPos()
 	jt := g.pick([]string{"join", "left join", "inner join"})
-	g.feat("join:" + jt)
+	g.feat("join:" + strings.TrimSuffix(strings.TrimSuffix(jt, "join"), " ") + map[bool]string{true: "plain", false: ""}[jt == "join"])
 	return tk(l, g.kw(jt), r, g.kw("on"), c), []src{ls, rs}, false
 }
 
